@@ -1778,7 +1778,8 @@ impl SchedX {
         if name == "L4" {
             return self.run_abandoned_warm_up(&name);
         }
-        let bound = case["bound"].as_u64().unwrap() as usize;
+        // ("pbound": the preemption bound when "bound" is used for ordering the case list only)
+        let bound = case.get("pbound").and_then(|b| b.as_u64()).unwrap_or_else(|| case["bound"].as_u64().unwrap()) as usize;
         let fixed: Option<Vec<usize>> = case.get("schedule").and_then(|s| s.as_array()).map(|a| a.iter().map(|x| x.as_u64().unwrap() as usize).collect());
         let max_exec = case["max_exec"].as_u64().unwrap_or(20000);
         let deadline = Instant::now() + Duration::from_secs(case["budget_s"].as_u64().unwrap_or(40));
